@@ -69,6 +69,7 @@ def sh(cmd, cwd, timeout):
         r = subprocess.run(cmd, cwd=cwd, shell=True, env=ENV, stdout=subprocess.PIPE, stderr=subprocess.STDOUT, timeout=timeout)
         return r.returncode, r.stdout.decode(errors="replace")
     except subprocess.TimeoutExpired:
+        subprocess.run("pkill -9 -f 'deps/test-'; pkill -9 -f 'deps/yarel'", shell=True)
         return 124, "TIMEOUT"
 
 def main():
@@ -97,7 +98,7 @@ def main():
             rc, out = sh("cargo build --offline -p yarel --features verif_hooks", repo, 900)
             if rc != 0:
                 L.write("NOCOMPILE %s\n" % tag); L.flush(); continue
-            rc, out = sh("cargo test --workspace --no-fail-fast --offline 2>&1 | grep -E '^test result|FAILED|panicked|error'", repo, 1800)
+            rc, out = sh("bash -c 'ulimit -v 12000000; timeout 900 cargo test --workspace --no-fail-fast --offline 2>&1' | grep -E '^test result|FAILED|panicked|error'", repo, 1000)
             ok = "543 passed; 1 failed" in out and "3 passed; 0 failed" in out
             if not ok:
                 L.write("KILLED-BY-TESTS %s\n" % tag); L.flush(); done += 1; continue
